@@ -5,7 +5,7 @@ from symx.api import *
 PROPERTY = 'C16'
 LEVEL = 'other'
 FILES = ['mesonbuild/mformat.py', 'mesonbuild/mparser.py', 'mesonbuild/ast/printer.py', 'mesonbuild/ast/visitor.py']
-ENCODED = ['mformat.Formatter.format', 'FormatterConfig.default/update', 'mformat.TrimWhitespaces', 'mformat.ArgumentFormatter', 'mformat.ComputeLineLengths',
+ENCODED = ['mformat.run with --recursive, SubdirFetcher', 'mformat.Formatter.format', 'FormatterConfig.default/update', 'mformat.TrimWhitespaces', 'mformat.ArgumentFormatter', 'mformat.ComputeLineLengths',
            'mformat.MultilineArgumentDetector / AstConditionLevel', 'ast.printer.RawPrinter', 'the real parser on both sides']
 EXPLANATION = ('Symbolic execution of the real formatter with the WHOLE FormatterConfig symbolic (every Boolean option a symbolic Boolean, max_line_length and tab_width symbolic '
                'integers, indent width chosen): "all combinations of options" is one symbolic configuration that forks only where the formatter consults it. Input programs '
